@@ -129,7 +129,7 @@ class ScenarioCheck:
                 if fn.startswith(prop + "-"):
                     os.unlink(os.path.join(rdir, fn))
         lean_ok, lean_out = vlib.build_lean()
-        aud = vlib.audit(prop, self.modules) if lean_ok else dict(ok=False, obligations=0, discharged=0, theorems={}, problems=["lake build failed:\n" + lean_out[-1500:]])
+        aud = vlib.audit(prop, self.modules, tier) if lean_ok else dict(ok=False, obligations=0, discharged=0, theorems={}, problems=["lake build failed:\n" + lean_out[-1500:]])
         exe, err = vlib.build_harness("simdrv", SIMDRV_SRC)
         if exe is None:
             print("CHECK-ERROR property=%s: /repo does not build with the hooks on:\n%s" % (prop, (err or "")[-2000:]))
@@ -258,7 +258,7 @@ class ScenarioCheck:
             obligations=aud["obligations"], discharged=aud["discharged"],
             checker_cmd="cd /verif/lean && lake build SimVerif simcheck && lake env lean <generated Audit file with `#print axioms` for each %s_* theorem>" % prop,
             trusted_base=self.trusted,
-            theorems=aud["theorems"], lean_problems=aud["problems"],
+            theorems=aud["theorems"], lean_problems=aud["problems"], leanchecker_rechecked=aud.get("leanchecker", False),
             evaluations=len(results), distinct_nontrivial=nontriv, rule=self.rule,
             traces_validated_against_impl=len(results), labels_compared=labels,
             mismatches=len(viol_mism), spec_failures=len(viol_spec), crashes=len(viol_crash),
